@@ -147,6 +147,26 @@ def build(c, variant):
         q = _pos(c, "q")
         fs.probset(m.p <= q)
         w.pub = q
+    w.own = None
+    if variant.get("econstr") == "own-set":
+        # the E-constraint carries its OWN ambiguity set G (wider supports, its own expectation event), different from
+        # the objective's set F: it must be dualised against G
+        gs = m.ambiguity()
+        gsup = {}
+        for s in range(S):
+            lo, hi = c.fresh_real(f"glo{s}_"), c.fresh_real(f"ghi{s}_")
+            c.assume(lo < hi)
+            c.assume(lo != 0)
+            c.assume(hi != 0)
+            gs[s].suppset(z >= lo, z <= hi)
+            gsup[s] = (lo, hi)
+        el, eh = c.fresh_real("gel"), c.fresh_real("geh")
+        c.assume(el < eh)
+        c.assume(el != 0)
+        c.assume(eh != 0)
+        gs.exptset(rsome.E(z) >= el, rsome.E(z) <= eh)
+        w.own = {"support": gsup, "events": [([0, 1], el, eh)], "pub": None}
+        w.gs = gs
     if variant.get("adapt") in ("event", "both"):
         x.adapt(1)
     if variant.get("adapt") in ("affine", "both"):
@@ -172,7 +192,13 @@ def build(c, variant):
     k1 = y + x[0] - zz
     m.st(k1 >= -1)
     w.R.append(-k1 - 1)
-    if variant.get("econstr"):
+    if variant.get("econstr") == "own-set":
+        gs = w.gs
+        e1 = x[1] * zz + y
+        g = c.fresh_real("g")
+        m.st((rsome.E(e1) <= g).forall(gs))
+        w.E.append([e1 - g])
+    elif variant.get("econstr"):
         e1 = x[1] * zz + y
         g = c.fresh_real("g")
         m.st(rsome.E(e1) <= g)
@@ -182,9 +208,16 @@ def build(c, variant):
     return w
 
 
-def in_support(w, s, Z):
-    lo, hi = w.support[s]
+def in_support(w, s, Z, own=False):
+    lo, hi = (w.own["support"] if own else w.support)[s]
     return p_and(*[p_and(p_le(lo, zz), p_le(zz, hi)) for zz in Z])
+
+
+def set_of(w, kind):
+    """(events, pub, own?) of the ambiguity set an E-item is dualised against"""
+    if kind == "con" and w.own is not None:
+        return w.own["events"], w.own["pub"], True
+    return w.events, w.pub, False
 
 
 VARIANTS = {
@@ -200,6 +233,8 @@ VARIANTS = {
     "static,E-affine,expt-overlap": dict(obj="E-affine", expt="overlap"),
     "static,E-maxof,expt-overlap-reversed": dict(obj="E-maxof", expt="overlap-reversed"),
     "event,E-affine,econstr,expt-overlap": dict(obj="E-affine", expt="overlap", adapt="event", econstr=True),
+    "static,E-affine,expt-all,econstr-with-its-own-set": dict(obj="E-affine", expt="all", econstr="own-set"),
+    "static,R-objective,expt-per-scenario,econstr-with-its-own-set": dict(obj="R", expt="per-scenario", econstr="own-set"),
 }
 
 
@@ -231,9 +266,10 @@ def run_variant(vname):
         it = iter(created[2:] if False else created)
         seq = [v for v in created]
         i = 0
-        ne = len(w.events)
+        kinds = (["obj"] if w.obj[0] == "E" else []) + ["con"] * len(w.E)
         while i < len(seq):
             v = seq[i]
+            ne = len(set_of(w, kinds[len(blocks)])[0]) if len(blocks) < len(kinds) else len(w.events)
             if tuple(v.shape) == (w.S,) and not any(v is b[0] for b in blocks):
                 alpha = v
                 beta = None
@@ -279,37 +315,40 @@ def run_variant(vname):
         feas = D.feas(F, X)
         t = []
         for (kind, pieces), (alpha, beta) in zip(items, ns["blocks"]):
+            events, _pub, own = set_of(w, kind)
             for s in range(w.S):
                 rhs = X[alpha.first + s]
-                for k, (members, _, _) in enumerate(w.events):
+                for k, (members, _, _) in enumerate(events):
                     if s in members:
                         for j in range(w.nz):
-                            rhs = rhs + X[beta.first + j * len(w.events) + k] * Z[j]
+                            rhs = rhs + X[beta.first + j * len(events) + k] * Z[j]
                 for pc in pieces:
                     pv = dec_value(pc, w.m, s, X, Z)[0]
                     if kind == "obj":
                         # the epigraph constraint is  d0 >= E(obj)  i.e. piece - d0 <= alpha_s + beta.z
                         d0 = rule_values(w.m, s, X, Z)[0]
                         pv = pv - d0
-                    t.append(p_implies(p_and(feas, in_support(w, s, Z)), p_le(pv, rhs)))
+                    t.append(p_implies(p_and(feas, in_support(w, s, Z, own)), p_le(pv, rhs)))
         return p_and(*t)
 
     def e2(ns, F):
         w, X, P, MU = ns["w"], ns["X"], ns["P"], ns["MU"]
         feas = D.feas(F, X)
-        lifted = [p_le(0, P[s]) for s in range(w.S)] + [p_eq(sum((P[s] for s in range(w.S)), 0.0), 1)]
-        if w.pub is not None:
-            lifted += [p_le(P[s], w.pub) for s in range(w.S)]
-        for k, (members, el, eh) in enumerate(w.events):
-            pk = sum((P[s] for s in members), 0.0)
-            for j in range(w.nz):
-                lifted += [p_le(pk * el, MU[k][j]), p_le(MU[k][j], pk * eh)]
         t = []
-        for (alpha, beta) in ns["blocks"]:
-            val = sum((X[alpha.first + s] * P[s] for s in range(w.S)), 0.0)
-            for k in range(len(w.events)):
+        for (kind, _pieces), (alpha, beta) in zip(e_items(ns), ns["blocks"]):
+            events, pub, _own = set_of(w, kind)
+            MUk = [arr([ctx().fresh_real(f"mu{kind}{k}_{j}_") for j in range(w.nz)]) for k in range(len(events))]
+            lifted = [p_le(0, P[s]) for s in range(w.S)] + [p_eq(sum((P[s] for s in range(w.S)), 0.0), 1)]
+            if pub is not None:
+                lifted += [p_le(P[s], pub) for s in range(w.S)]
+            for k, (members, el, eh) in enumerate(events):
+                pk = sum((P[s] for s in members), 0.0)
                 for j in range(w.nz):
-                    val = val + X[beta.first + j * len(w.events) + k] * MU[k][j]
+                    lifted += [p_le(pk * el, MUk[k][j]), p_le(MUk[k][j], pk * eh)]
+            val = sum((X[alpha.first + s] * P[s] for s in range(w.S)), 0.0)
+            for k in range(len(events)):
+                for j in range(w.nz):
+                    val = val + X[beta.first + j * len(events) + k] * MUk[k][j]
             t.append(p_implies(p_and(feas, *lifted), p_le(val, 0)))
         return p_and(*t) if t else True
 
